@@ -231,6 +231,17 @@ fn triple_case<P: G>(cfg: Cfg, seeded: bool, tier: Tier) -> Box<dyn Case> {
                 }
             }
         }
+        // ---- a promise vector of another length, if the statement constructor lets it through (C17 says it must not; whatever it
+        // accepts is a statement the verifier answers with an error, not a panic and not Ok)
+        for (name, ps) in [
+            ("promises+None", [wit.promises.clone(), vec![None]].concat()),
+            ("promises+Some(0)", [wit.promises.clone(), vec![Some(0)]].concat()),
+            ("promises-last", wit.promises[..cfg.m - 1].to_vec()),
+        ] {
+            if let Ok(Ok(st)) = catch(|| restate(&built, built.commitments.clone(), ps, wit.seed)) {
+                proof_bytes_or_obj(&st, &format!("promise-vector:{}", name), &mut res, false);
+            }
+        }
         // ---- bit length (parameters rebuilt)
         for n2 in [cfg.n / 2, cfg.n * 2] {
             if n2 == 0 || n2 > 64 {
@@ -342,7 +353,7 @@ fn pair_case<P: G>(cfg: Cfg) -> Box<dyn Case> {
             Some(p) => p,
             None => return res,
         };
-        let menu: Vec<_> = mutate::menu(&rp, false).into_iter().filter(|m| !matches!(m, mutate::Mut::ExtTag(_) | mutate::Mut::DropRound | mutate::Mut::DupRound | mutate::Mut::AppendRounds(_))).collect();
+        let menu: Vec<_> = mutate::menu(&rp, false).into_iter().filter(|m| !matches!(m, mutate::Mut::ExtTag(_) | mutate::Mut::DropRound | mutate::Mut::DupRound | mutate::Mut::AppendRounds(_) | mutate::Mut::DegreeUp | mutate::Mut::DegreeDown)).collect();
         for (i, m1) in menu.iter().enumerate() {
             let b1 = match mutate::apply::<P>(&rp, m1, &h) {
                 Some(b) => b,
